@@ -3,6 +3,7 @@ level.  TLC enumerates every (layout, registration order), evaluates layer R and
 prints one JSON case; here each case is rendered, replayed on the real library, and the real
 answers are compared with layer R (the verdict) and layer I (model fidelity / known findings)."""
 import json
+import os
 import random
 
 import common as C
@@ -11,52 +12,8 @@ import render as R
 UNI = R.LAYOUT_UNIVERSE
 
 
-def tier_cfg(tier):
-    return "Layouts_quick.cfg" if tier == "quick" else "Layouts_thorough.cfg"
-
-
 def defid(d):
     return None if d is None or d.get("file") == "NOFILE" else (d["file"], d["idx"])
-
-
-class CaseCtx:
-    """rendered files of one case + decoding of real answers to abstract identities"""
-
-    def __init__(self, case):
-        self.case = case
-        self.files = {}
-        for slot, mod in case["ws"].items():
-            self.files[slot] = R.render_checked(UNI, slot, mod)
-
-    def setup_ops(self):
-        ops = []
-        for p in case_list(self.case.get("plugins")):
-            ops.append({"op": "mark_plugin", "path": UNI.paths[p]})
-        for slot in self.case["order"]:
-            ops.append({"op": "analyze", "path": UNI.paths[slot], "text": self.files[slot].text})
-        return ops
-
-    def decode_def(self, d):
-        if d is None:
-            return None
-        if "panic" in d or "tool_error" in d:
-            return ("PANIC", json.dumps(d))
-        slot = UNI.slot_of_path.get(d["file"])
-        if slot is None:
-            return ("?", d["file"], d["line"])
-        idx = self.files[slot].line_item.get(d["line"])
-        return (slot, idx if idx is not None else -d["line"])
-
-    def decode_use(self, u):
-        slot = UNI.slot_of_path.get(u["file"])
-        r = self.files[slot]
-        for key, (ln, cs, ce) in r.use_pos.items():
-            if ln == u["line"] and cs == u["sc"] and ce == u["ec"]:
-                it = _item(self.case, slot, key[0])
-                nm = _use_name(it, key[1], key[2])
-                if nm == u["name"]:
-                    return (slot, key[0], key[1], key[2])
-        return ("?", u["file"], u["line"], u["sc"], u["ec"], u["name"])
 
 
 def case_list(x):
@@ -76,9 +33,63 @@ def useid(u):
     return (u["file"], u["idx"], u["uk"], u["ui"])
 
 
-def load_cases(tier, emit_needed):
-    cfg = tier_cfg(tier)
-    meta = C.run_tlc("Layouts", cfg, workers=12, timeout=7200)
+class CaseCtx:
+    """rendered files of one case + decoding of real answers to abstract identities"""
+
+    def __init__(self, case):
+        self.case = case
+        self.files = {}
+        for slot, mod in case["ws"].items():
+            self.files[slot] = R.render_checked(UNI, slot, mod)
+
+    def setup_ops(self):
+        ops = []
+        for p in case_list(self.case.get("plugins")):
+            ops.append({"op": "mark_plugin", "path": UNI.paths[p]})
+        for slot in self.case["order"]:
+            ops.append({"op": "analyze", "path": UNI.paths[slot], "text": self.files[slot].text})
+        return ops
+
+    def texts(self):
+        return {UNI.paths[s]: self.files[s].text for s in self.case["order"]}
+
+    def decode_def(self, d):
+        if d is None:
+            return None
+        if "panic" in d or "tool_error" in d or "nodef" in d:
+            return ("PANIC", json.dumps(d))
+        slot = UNI.slot_of_path.get(d["file"])
+        if slot is None:
+            return ("?", d["file"], d["line"])
+        idx = self.files[slot].line_item.get(d["line"])
+        return (slot, idx if idx is not None else -d["line"])
+
+    def decode_use(self, u):
+        slot = UNI.slot_of_path.get(u["file"])
+        if slot is None or slot not in self.files:
+            return ("?", u["file"], u["line"], u["sc"], u["ec"], u["name"])
+        r = self.files[slot]
+        for key, (ln, cs, ce) in r.use_pos.items():
+            if ln == u["line"] and cs == u["sc"] and ce == u["ec"]:
+                it = _item(self.case, slot, key[0])
+                if _use_name(it, key[1], key[2]) == u["name"]:
+                    return (slot, key[0], key[1], key[2])
+        return ("?", u["file"], u["line"], u["sc"], u["ec"], u["name"])
+
+    def use_pos(self, u):
+        return self.files[u["file"]].use_pos[(u["idx"], u["uk"], u["ui"])]
+
+    def all_defs(self):
+        out = []
+        for slot, mod in self.case["ws"].items():
+            for i, it in enumerate(case_list(mod["items"])):
+                if it["k"] == "def":
+                    out.append((slot, i + 1, it))
+        return out
+
+
+def load_cases(cfg, timeout=7200):
+    meta = C.run_tlc("Layouts", cfg, workers=12, timeout=timeout)
     if not meta["ok"]:
         raise C.ToolError("TLC on Layouts/%s failed: %s" % (cfg, meta["errors"]))
     return meta
@@ -88,61 +99,110 @@ def shape_key(case):
     return json.dumps(case["shape"], sort_keys=True)
 
 
-def sampler(tier, frac_quick, frac_thorough):
-    rnd = random.Random(C.seed())
-    frac = frac_quick if tier == "quick" else frac_thorough
-    return (lambda: rnd.random() < frac), frac
+def tlc_cov(meta, replayed):
+    return {"states": meta["distinct"], "transitions": meta["transitions"],
+            "traces_validated_against_impl": replayed,
+            "tlc": {"module": meta["module"], "cfg": meta["cfg"], "wall_s": meta["wall_s"],
+                    "cached": meta.get("cached", False), "cmd": meta["cmd"]},
+            "exhaustive": True}
+
+
+def n_named(case, name):
+    n = 0
+    for slot, mod in case["ws"].items():
+        for it in case_list(mod["items"]):
+            if it["k"] == "def" and it["name"] == name:
+                n += 1
+    return n
+
+
+def drive(meta, build, judge, only=None):
+    """build(ctx) -> (ops, tags) appended after the setup ops; judge(ctx, [(tag, answer)...])"""
+    C.build_harness()
+    ctxs = {}
+    count = [0]
+
+    def gen():
+        for n, case in enumerate(C.tlc_cases(meta)):
+            if only is not None and not only(n, case):
+                continue
+            ctx = CaseCtx(case)
+            setup = ctx.setup_ops()
+            ops, tags = build(ctx)
+            ctxs[n] = (ctx, tags, len(setup))
+            yield {"id": n, "ops": setup + ops}
+
+    for res in C.run_harness(gen()):
+        ctx, tags, off = ctxs.pop(res["id"])
+        for j, a in enumerate(res["res"][:off]):
+            if isinstance(a, dict) and ("panic" in a or "tool_error" in a):
+                raise C.ToolError("setup op failed in case %r: %r" % (ctx.case["shape"], a))
+        judge(ctx, list(zip(tags, res["res"][off:])), res["id"])
+        count[0] += 1
+    return count[0]
+
+
+def replay_filter():
+    """--replay <file>: only the case recorded in that file"""
+    p = os.environ.get("VERIF_REPLAY")
+    if not p:
+        return None
+    rec = json.load(open(p))["case"]
+    sk = json.dumps(rec["shape"], sort_keys=True)
+    order = rec.get("order")
+    return lambda n, case: shape_key(case) == sk and (order is None or case["order"] == order)
 
 
 # ------------------------------------------------------------------------------------------- C01
 
+def goto_ops(ctx, rows, all_cols=True):
+    ops, tags = [], []
+    for row in rows:
+        u = row["u"]
+        ln, cs, ce = ctx.use_pos(u)
+        for col in (range(cs, ce) if all_cols else [cs]):
+            ops.append({"op": "goto", "path": UNI.paths[u["file"]], "line": ln - 1, "col": col})
+            tags.append(("goto", row, col))
+    return ops, tags
+
+
+def judge_goto(V, ctx, row, col, ans, what="go-to-definition differs from pytest's resolution"):
+    case = ctx.case
+    V.count()
+    py = {defid(d) for d in row["py"]}
+    impl = defid(row["impl"])
+    actual = ctx.decode_def(ans)
+    if n_named(case, row["name"]) >= 2:
+        V.nontriv((shape_key(case), tuple(case["order"]), useid(row["u"])))
+    if actual in py:
+        return True
+    example = {"shape": case["shape"], "order": case["order"], "usage": row["u"], "col": col,
+               "expected_any_of": sorted(map(str, py)), "actual": str(actual),
+               "model_predicts": str(impl), "blame": row["blame"], "files": ctx.texts()}
+    if actual == impl:
+        V.classify(row["blame"], example, what)
+    else:
+        V.drift += 1
+        V.violation(example, what + " and from the implementation model")
+    return False
+
+
 def check_c01(tier):
     V = C.Verdict("C01", tier, "model_checking")
-    meta = load_cases(tier, "goto")
-    C.build_harness()
-    ctxs = {}
+    meta = load_cases("Layouts_quick.cfg" if tier == "quick" else "Layouts_thorough.cfg")
 
-    def gen():
-        for n, case in enumerate(C.tlc_cases(meta)):
-            ctx = CaseCtx(case)
-            ops = ctx.setup_ops()
-            plan = []
-            for row in case["goto"]:
-                u = row["u"]
-                ln, cs, ce = ctx.files[u["file"]].use_pos[(u["idx"], u["uk"], u["ui"])]
-                for col in range(cs, ce):
-                    ops.append({"op": "goto", "path": UNI.paths[u["file"]], "line": ln - 1, "col": col})
-                    plan.append((row, col))
-            ctxs[n] = (ctx, plan, len(ops) - len(plan))
-            yield {"id": n, "ops": ops}
+    def build(ctx):
+        return goto_ops(ctx, ctx.case["goto"])
 
-    for res in C.run_harness(gen()):
-        ctx, plan, off = ctxs.pop(res["id"])
-        case = ctx.case
-        for (row, col), ans in zip(plan, res["res"][off:]):
-            V.count()
-            py = {defid(d) for d in row["py"]}
-            impl = defid(row["impl"])
-            actual = ctx.decode_def(ans)
-            u = row["u"]
-            if len({defid(DD) for DD in _all_defs_named(case, row["name"])}) >= 2:
-                V.nontriv((shape_key(case), tuple(case["order"]), useid(u)))
-            if actual in py:
-                continue
-            example = {"shape": case["shape"], "order": case["order"], "usage": u, "col": col,
-                       "expected_any_of": sorted(map(str, py)), "actual": str(actual),
-                       "model_predicts": str(impl), "blame": row["blame"],
-                       "files": {UNI.paths[s]: ctx.files[s].text for s in case["order"]}}
-            if actual == impl:
-                V.classify(row["blame"], example, "go-to-definition differs from pytest's resolution")
-            else:
-                V.drift += 1
-                V.violation(example, "go-to-definition differs from pytest's resolution and from the implementation model")
-        if res["id"] % 20000 == 0:
-            V.sample({"shape": case["shape"], "order": case["order"],
-                      "queries": len(plan)})
+    def judge(ctx, answers, n):
+        for (_, row, col), ans in answers:
+            judge_goto(V, ctx, row, col, ans)
+        if n % 20000 == 0:
+            V.sample({"shape": ctx.case["shape"], "order": ctx.case["order"], "queries": len(answers)})
+
+    replayed = drive(meta, build, judge, only=replay_filter())
     return V.finish(
-        coverage_extra=_tlc_cov(meta),
+        coverage_extra=tlc_cov(meta, replayed),
         rule="TLC enumerates every (layout, registration order) of spec/Layouts.tla; each is replayed in memory "
              "on the real library and find_fixture_definition is asked at every column of every usage token; "
              "non-trivial = at least two definitions of the queried name compete; distinct by (layout, order, usage)",
@@ -150,17 +210,447 @@ def check_c01(tier):
                      "in-memory replay with virtual paths (file_cache decides conftest existence)"])
 
 
-def _all_defs_named(case, name):
-    out = []
-    for slot, mod in case["ws"].items():
-        for i, it in enumerate(case_list(mod["items"])):
-            if it["k"] == "def" and it["name"] == name:
-                out.append({"file": slot, "idx": i + 1})
-    return out
+# ------------------------------------------------------------------------------------------- C02
+
+def check_c02(tier):
+    """override chains: parameter -> next outward, never itself; function name -> the override itself"""
+    V = C.Verdict("C02", tier, "model_checking")
+    meta = load_cases("Layouts_chain.cfg")
+
+    def build(ctx):
+        ops, tags = goto_ops(ctx, ctx.case["goto"])
+        # every column of every overriding def line
+        for slot, idx, it in ctx.all_defs():
+            if it["name"] in case_list(it["deps"]):
+                r = ctx.files[slot]
+                ln = r.item_line[idx]
+                text_line = r.text.split("\n")[ln - 1]
+                for col in range(0, len(text_line) + 2):
+                    ops.append({"op": "goto", "path": UNI.paths[slot], "line": ln - 1, "col": col})
+                    tags.append(("defline_goto", slot, idx, col))
+                    ops.append({"op": "refs_at", "path": UNI.paths[slot], "line": ln - 1, "col": col})
+                    tags.append(("defline_refs", slot, idx, col))
+        return ops, tags
+
+    def judge(ctx, answers, n):
+        case = ctx.case
+        goto_actual = {}
+        for tag, ans in answers:
+            if tag[0] == "goto":
+                _, row, col = tag
+                judge_goto(V, ctx, row, col, ans, "navigation from a (self-named) parameter differs from the next definition outward")
+                goto_actual.setdefault(useid(row["u"]), ctx.decode_def(ans))
+        for tag, ans in answers:
+            if tag[0] == "defline_goto":
+                _, slot, idx, col = tag
+                r = ctx.files[slot]
+                _, ns, ne = r.def_name_pos[idx]
+                pl, ps, pe = r.use_pos[(idx, "p", 1 + case_list(_item(case, slot, idx)["deps"]).index(_item(case, slot, idx)["name"]))]
+                actual = ctx.decode_def(ans)
+                V.count()
+                V.nontriv((shape_key(case), slot, idx, col, "g"))
+                ex = {"shape": case["shape"], "order": case["order"], "def": [slot, idx], "col": col,
+                      "actual": str(actual), "files": ctx.texts()}
+                if ns <= col < ne:
+                    # on the function name: must not navigate to the parent (None or the override itself)
+                    if actual is not None and actual != (slot, idx):
+                        V.violation(ex, "go-to-definition on an overriding fixture's NAME left the override")
+                elif ps <= col < pe:
+                    if actual == (slot, idx):
+                        V.violation(ex, "go-to-definition on the self-named parameter returned the overriding fixture itself")
+                else:
+                    if actual is not None and isinstance(actual, tuple) and actual[0] == "PANIC":
+                        V.violation(ex, "panic on a def-line column")
+            elif tag[0] == "defline_refs":
+                _, slot, idx, col = tag
+                r = ctx.files[slot]
+                _, ns, ne = r.def_name_pos[idx]
+                if not (ns <= col < ne):
+                    continue
+                V.count()
+                ex = {"shape": case["shape"], "order": case["order"], "def": [slot, idx], "col": col,
+                      "actual": ans, "files": ctx.texts()}
+                if not isinstance(ans, dict) or ans.get("target") is None:
+                    V.violation(ex, "references from an overriding fixture's name found no definition")
+                    continue
+                tgt = ctx.decode_def(ans["target"])
+                if tgt != (slot, idx):
+                    V.violation(ex, "references from an overriding fixture's name concern another definition")
+                    continue
+                refs = {ctx.decode_use(x) for x in ans["refs"]}
+                want = {u for u, d in goto_actual.items() if d == (slot, idx)}
+                if refs != want:
+                    ex["want"] = sorted(map(str, want))
+                    V.violation(ex, "references of the overriding fixture are not the usages that navigate to it")
+        if n % 500 == 0:
+            V.sample({"shape": case["shape"], "order": case["order"], "queries": len(answers)})
+
+    replayed = drive(meta, build, judge, only=replay_filter())
+    return V.finish(
+        coverage_extra=tlc_cov(meta, replayed),
+        rule="override chains: every assignment of {absent, def, override} to three conftest levels x same-file "
+             "{none, def, override} x {plugin def | plugin override, third-party} with tests at depth 0,1,2 "
+             "(spec/Layouts.tla, Layouts_chain.cfg), two registration orders each; every column of every "
+             "overriding def line is probed for go-to-definition and references; non-trivial = every probe on "
+             "an overriding def line or a usage with >= 2 same-named definitions",
+        assumptions=["a same-file redefinition next to a same-file override is not generated (statement leaves it open)"])
 
 
-def _tlc_cov(meta):
-    return {"states": meta["distinct"], "transitions": meta["transitions"],
-            "tlc": {"module": meta["module"], "cfg": meta["cfg"], "wall_s": meta["wall_s"],
-                    "cached": meta.get("cached", False), "cmd": meta["cmd"]},
-            "exhaustive": True}
+# ------------------------------------------------------------------------------------------- C04
+
+def check_c04(tier):
+    V = C.Verdict("C04", tier, "model_checking")
+    meta = load_cases("Layouts_quick.cfg" if tier == "quick" else "Layouts_thorough.cfg")
+
+    def build(ctx):
+        ops, tags = goto_ops(ctx, ctx.case["goto"], all_cols=False)
+        for slot, idx, it in ctx.all_defs():
+            ops.append({"op": "refs", "path": UNI.paths[slot], "line1": ctx.files[slot].item_line[idx], "name": it["name"]})
+            tags.append(("refs", slot, idx, it["name"]))
+        ops.append({"op": "unused"})
+        tags.append(("unused",))
+        ops.append({"op": "snapshot"})
+        tags.append(("snapshot",))
+        return ops, tags
+
+    def judge(ctx, answers, n):
+        case = ctx.case
+        goto_actual = {}
+        for tag, ans in answers:
+            if tag[0] == "goto":
+                goto_actual[useid(tag[1]["u"])] = ctx.decode_def(ans)
+        listed = {}
+        for tag, ans in answers:
+            if tag[0] == "refs":
+                _, slot, idx, name = tag
+                D = (slot, idx)
+                V.count()
+                ex = {"shape": case["shape"], "order": case["order"], "def": [slot, idx], "answer": ans,
+                      "files": ctx.texts()}
+                if not isinstance(ans, list):
+                    V.violation(ex, "definition not found by line/name or panic")
+                    continue
+                refs = [ctx.decode_use(x) for x in ans]
+                if len(refs) != len(set(refs)):
+                    V.violation(ex, "a usage is listed twice among the references of one definition")
+                want = {u for u, d in goto_actual.items() if d == D}
+                if len(want) + len(refs) > 0:
+                    V.nontriv((shape_key(case), tuple(case["order"]), D))
+                if set(refs) != want:
+                    ex["want"] = sorted(map(str, want))
+                    ex["got"] = sorted(map(str, set(refs)))
+                    V.violation(ex, "references(D) is not the set of usages whose go-to-definition lands on D")
+                for u in refs:
+                    listed.setdefault(u, []).append(D)
+            elif tag[0] == "snapshot":
+                # Mirror: usage_by_fixture mirrors usages exactly (as bags)
+                a = sorted(json.dumps({k: v for k, v in x.items() if k != "key_file"}, sort_keys=True)
+                           for lst in ans["ubf"].values() for x in lst)
+                b = sorted(json.dumps(x, sort_keys=True) for lst in ans["usages"].values() for x in lst)
+                V.count()
+                if a != b or any(x["key_file"] != x["file"] for lst in ans["ubf"].values() for x in lst):
+                    V.violation({"shape": case["shape"], "order": case["order"], "files": ctx.texts()},
+                                "usage_by_fixture does not mirror usages")
+            elif tag[0] == "unused":
+                # CLI unused == project, non-autouse, no references (per (file,name) as the CLI prints it)
+                V.count()
+                got = {(UNI.slot_of_path.get(x["file"]), x["name"]) for x in ans} if isinstance(ans, list) else None
+                want = set()
+                per = {}
+                for slot, idx, it in ctx.all_defs():
+                    per.setdefault((slot, it["name"]), [0, it, slot])
+                    per[(slot, it["name"])][0] += sum(1 for u, d in goto_actual.items() if d == (slot, idx))
+                for (slot, name), (cnt, it, _) in per.items():
+                    if cnt == 0 and slot != "tp" and not it["autouse"]:
+                        want.add((slot, name))
+                if got != want:
+                    V.violation({"shape": case["shape"], "order": case["order"], "got": sorted(map(str, got or [])),
+                                 "want": sorted(map(str, want)), "files": ctx.texts()},
+                                "CLI unused set differs from 'no usage navigates to it'")
+        for u, d in goto_actual.items():
+            if d is None and u in listed:
+                V.violation({"shape": case["shape"], "order": case["order"], "usage": list(u), "files": ctx.texts()},
+                            "an unresolved usage is listed under a definition")
+        if n % 20000 == 0:
+            V.sample({"shape": case["shape"], "order": case["order"], "defs": len(ctx.all_defs()),
+                      "usages": len(goto_actual)})
+
+    replayed = drive(meta, build, judge, only=replay_filter())
+    return V.finish(
+        coverage_extra=tlc_cov(meta, replayed),
+        rule="every (layout, order) of spec/Layouts.tla replayed; for every definition D: references(D) == "
+             "{u : goto(u) == D} on the real library, no duplicates, unresolved usages listed nowhere, "
+             "usage_by_fixture mirrors usages, CLI unused == no incoming usage; TLC checks Mirror and RefsInverse "
+             "on the model; non-trivial = definition with at least one usage or reference",
+        assumptions=["LSP-level counts (code lens, incoming calls, `fixtures list`) are compared in the LSP/CLI tier of this check"])
+
+
+# ------------------------------------------------------------------------------------------- C05
+
+def check_c05(tier):
+    V = C.Verdict("C05", tier, "model_checking")
+    meta = load_cases("Layouts_quick.cfg" if tier == "quick" else "Layouts_thorough.cfg")
+    names = ["n", "w", "x"]
+
+    def build(ctx):
+        ops, tags = goto_ops(ctx, ctx.case["goto"], all_cols=False)
+        for row in ctx.case["goto"]:
+            u = row["u"]
+            ln, cs, ce = ctx.use_pos(u)
+            ops.append({"op": "goto_or_def", "path": UNI.paths[u["file"]], "line": ln - 1, "col": cs})
+            tags.append(("god", row))
+        for row in ctx.case["avail"]:
+            ops.append({"op": "available", "path": UNI.paths[row["f"]]})
+            tags.append(("avail", row))
+        for row in ctx.case["rff"]:
+            ops.append({"op": "resolve_for_file", "path": UNI.paths[row["d"]["file"]], "name": row["dep"]})
+            tags.append(("rff", row))
+        return ops, tags
+
+    def judge(ctx, answers, n):
+        case = ctx.case
+        goto_by_file_name = {}
+        excl_rows = set()
+        avail = {}
+        rff = {}
+        for tag, ans in answers:
+            if tag[0] == "goto":
+                row = tag[1]
+                u = row["u"]
+                it = _item(case, u["file"], u["idx"])
+                selfnamed = it["k"] == "def" and u["uk"] == "p" and row["name"] == it["name"]
+                if not selfnamed:
+                    goto_by_file_name.setdefault((u["file"], row["name"]), set()).add(ctx.decode_def(ans))
+                goto_by_file_name.setdefault(("_u", useid(u)), set()).add(ctx.decode_def(ans))
+            elif tag[0] == "avail":
+                row = tag[1]
+                if not isinstance(ans, list):
+                    V.violation({"shape": case["shape"], "answer": ans}, "available fixtures panicked")
+                    continue
+                d = {}
+                dup = False
+                for x in ans:
+                    if x["name"] in d:
+                        dup = True
+                    d[x["name"]] = ctx.decode_def(x)
+                avail[row["f"]] = (d, row, dup)
+            elif tag[0] == "rff":
+                rff[(defid(tag[1]["d"]), tag[1]["dep"])] = (ctx.decode_def(ans), tag[1])
+        # (a) navigation vs implementation/call-hierarchy preparation at the same position
+        for tag, ans in answers:
+            if tag[0] == "god":
+                row = tag[1]
+                V.count()
+                g = goto_by_file_name[("_u", useid(row["u"]))]
+                if ctx.decode_def(ans) not in g:
+                    V.violation({"shape": case["shape"], "order": case["order"], "usage": row["u"],
+                                 "goto": sorted(map(str, g)), "goto_or_def": str(ctx.decode_def(ans)), "files": ctx.texts()},
+                                "prepareCallHierarchy/implementation resolver disagrees with go-to-definition")
+        # (b) the per-file view: exactly one entry per visible name, equal to navigation
+        for f, (d, row, dup) in avail.items():
+            for nm in names:
+                V.count()
+                py = {defid(x) for x in row["py"][nm]}
+                impl = defid(row["impl"][nm])
+                actual = d.get(nm)
+                g = goto_by_file_name.get((f, nm))
+                if n_named(case, nm) >= 2:
+                    V.nontriv((shape_key(case), tuple(case["order"]), f, nm, "a"))
+                ex = {"shape": case["shape"], "order": case["order"], "file": f, "name": nm,
+                      "view_entry": str(actual), "goto": sorted(map(str, g)) if g else None,
+                      "expected_any_of": sorted(map(str, py)), "model_predicts": str(impl),
+                      "blame": row["blame"][nm], "files": ctx.texts()}
+                agree_goto = (g is None) or (actual in g)
+                if actual in py and agree_goto:
+                    continue
+                if actual in py and not agree_goto:
+                    # the view is right, navigation is wrong: that is C01's finding, not a view defect;
+                    # it is still a cross-feature disagreement -> classify with the goto rows' blame
+                    blame = set()
+                    for r2 in case["goto"]:
+                        if r2["u"]["file"] == f and r2["name"] == nm:
+                            blame |= set(r2["blame"])
+                    V.classify(sorted(blame), ex, "completion/inlay view and go-to-definition denote different definitions")
+                    continue
+                if actual == impl:
+                    V.classify(row["blame"][nm], ex, "completion/inlay view entry is not the definition resolution selects")
+                else:
+                    V.drift += 1
+                    V.violation(ex, "completion/inlay view entry differs from resolution and from the implementation model")
+            if dup:
+                V.violation({"shape": case["shape"], "file": f}, "a name appears twice in the per-file view")
+        # (c) outgoing-calls resolver vs navigation from fixture parameters
+        for (dd, nm), (actual, row) in rff.items():
+            V.count()
+            py = {defid(x) for x in row["py"]}
+            impl = defid(row["impl"])
+            if n_named(case, nm) >= 2:
+                V.nontriv((shape_key(case), tuple(case["order"]), dd, nm, "r"))
+            if actual in py:
+                continue
+            ex = {"shape": case["shape"], "order": case["order"], "fixture": list(dd), "dependency": nm,
+                  "outgoing_target": str(actual), "expected_any_of": sorted(map(str, py)),
+                  "model_predicts": str(impl), "blame": row["blame"], "files": ctx.texts()}
+            if actual == impl:
+                V.classify(row["blame"], ex, "outgoing-calls resolver is not the definition resolution selects")
+            else:
+                V.drift += 1
+                V.violation(ex, "outgoing-calls resolver differs from resolution and from the implementation model")
+        if n % 20000 == 0:
+            V.sample({"shape": case["shape"], "order": case["order"], "views": len(avail), "rff": len(rff)})
+
+    replayed = drive(meta, build, judge, only=replay_filter())
+    return V.finish(
+        coverage_extra=tlc_cov(meta, replayed),
+        rule="every (layout, order) of spec/Layouts.tla replayed; the four resolvers of the library "
+             "(find_fixture_definition, find_fixture_or_definition_at_position, get_available_fixtures, "
+             "resolve_fixture_for_file) are asked about the same (file, name) and must denote one definition, "
+             "the one layer R selects; non-trivial = name with >= 2 definitions",
+        assumptions=["the LSP handlers are thin projections of these four resolvers; they are compared through the real binary in the LSP tier"])
+
+
+# ------------------------------------------------------------------------------------------- C08
+
+def check_c08(tier):
+    """order independence: all registration orders of one layout give one observable snapshot"""
+    V = C.Verdict("C08", tier, "model_checking")
+    meta = load_cases("Layouts_quick.cfg" if tier == "quick" else "Layouts_thorough.cfg")
+    names = ["n", "w", "x"]
+    groups = {}
+
+    def build(ctx):
+        ops, tags = goto_ops(ctx, ctx.case["goto"], all_cols=False)
+        for slot, idx, it in ctx.all_defs():
+            ops.append({"op": "refs", "path": UNI.paths[slot], "line1": ctx.files[slot].item_line[idx], "name": it["name"]})
+            tags.append(("refs", slot, idx))
+        for row in ctx.case["avail"]:
+            ops.append({"op": "available", "path": UNI.paths[row["f"]]})
+            tags.append(("avail", row["f"]))
+            ops.append({"op": "scope_mismatch", "path": UNI.paths[row["f"]]})
+            tags.append(("mismatch", row["f"]))
+        for row in ctx.case["rff"]:
+            ops.append({"op": "resolve_for_file", "path": UNI.paths[row["d"]["file"]], "name": row["dep"]})
+            tags.append(("rff", str(defid(row["d"])), row["dep"]))
+        ops.append({"op": "unused"})
+        tags.append(("unused",))
+        ops.append({"op": "cycles"})
+        tags.append(("cycles",))
+        return ops, tags
+
+    def judge(ctx, answers, n):
+        case = ctx.case
+        snap = {}
+        for tag, ans in answers:
+            if tag[0] == "goto":
+                snap["goto %s" % (useid(tag[1]["u"]),)] = str(ctx.decode_def(ans))
+            elif tag[0] == "refs":
+                snap["refs %s" % ((tag[1], tag[2]),)] = str(sorted(map(str, (ctx.decode_use(x) for x in ans)))) if isinstance(ans, list) else str(ans)
+            elif tag[0] == "avail":
+                snap["avail %s" % tag[1]] = str(sorted((x["name"], str(ctx.decode_def(x))) for x in ans)) if isinstance(ans, list) else str(ans)
+            elif tag[0] == "rff":
+                snap["rff %s %s" % (tag[1], tag[2])] = str(ctx.decode_def(ans))
+            elif tag[0] == "mismatch":
+                snap["mismatch %s" % tag[1]] = str(sorted((str(ctx.decode_def(x["fixture"])), str(ctx.decode_def(x["dependency"]))) for x in ans)) if isinstance(ans, list) else str(ans)
+            elif tag[0] == "unused":
+                snap["unused"] = str(sorted((UNI.slot_of_path.get(x["file"]), x["name"]) for x in ans)) if isinstance(ans, list) else str(ans)
+            elif tag[0] == "cycles":
+                snap["cycles"] = str(sorted((tuple(sorted(set(x["path"]))), str(ctx.decode_def(x["fixture"]))) for x in ans)) if isinstance(ans, list) else str(ans)
+        blames = {}
+        for row in case["goto"]:
+            if row["blame"]:
+                blames["goto %s" % (useid(row["u"]),)] = row["blame"]
+        for row in case["avail"]:
+            b = set()
+            for nm in names:
+                b |= set(row["blame"][nm])
+            if b:
+                blames["avail %s" % row["f"]] = sorted(b)
+        for row in case["rff"]:
+            if row["blame"]:
+                blames["rff %s %s" % (str(defid(row["d"])), row["dep"])] = row["blame"]
+        g = groups.setdefault(shape_key(case), [])
+        g.append((case["order"], snap, blames, ctx.texts()))
+
+    replayed = drive(meta, build, judge, only=None)
+    for sk, runs in groups.items():
+        V.count(len(runs))
+        if len(runs) >= 2:
+            V.nontriv(sk)
+        base_order, base, _, texts = runs[0]
+        for order, snap, blames, _ in runs[1:]:
+            diff = [k for k in base if base[k] != snap.get(k)]
+            if not diff:
+                continue
+            # which deviations does the model hold responsible for the differing observables?
+            blame = set()
+            unexplained = []
+            for k in diff:
+                kb = set()
+                for (_, _, bl, _) in runs:
+                    kb |= set(bl.get(k, []))
+                if k.startswith("refs") or k == "unused":
+                    # derived from navigation: explained iff some navigation answer differs for a blamed reason
+                    for (_, _, bl, _) in runs:
+                        for kk, v in bl.items():
+                            if kk.startswith("goto"):
+                                kb |= set(v)
+                if not kb:
+                    unexplained.append(k)
+                blame |= kb
+            ex = {"shape": json.loads(sk), "order_a": base_order, "order_b": order,
+                  "differing": {k: [base[k], snap.get(k)] for k in diff[:8]}, "blame": sorted(blame), "files": texts}
+            if unexplained:
+                ex["unexplained"] = unexplained
+                V.violation(ex, "answers depend on the registration order (not predicted by the implementation model)")
+            else:
+                V.classify(sorted(blame), ex, "answers depend on the registration order of same-named definitions")
+            break
+    if groups:
+        k0 = next(iter(groups))
+        V.sample({"shape": json.loads(k0), "orders": [r[0] for r in groups[k0]][:6]})
+    return V.finish(
+        coverage_extra=tlc_cov(meta, replayed),
+        rule="for every layout of spec/Layouts.tla the full observable snapshot (navigation per usage, references "
+             "per definition, per-file view, outgoing-calls resolver, scope mismatches, cycles, CLI unused) is "
+             "computed on the real library under EVERY registration order of the files defining the name and the "
+             "snapshots are compared; non-trivial = layout with >= 2 orders; TLC checks RepairedEqualsR under all orders",
+        assumptions=["the parallel scan's schedule affects the index only through per-file analysis order (C09 covers atomicity)",
+                     "process-level (hash seed) and RAYON_NUM_THREADS variation is exercised in the on-disk tier"])
+
+
+# ------------------------------------------------------------------------------------------- C20
+
+def check_c20_library(V, tier):
+    meta = load_cases("Layouts_quick.cfg" if tier == "quick" else "Layouts_thorough.cfg")
+
+    def build(ctx):
+        return [{"op": "unused"}], [("unused",)]
+
+    def judge(ctx, answers, n):
+        case = ctx.case
+        row = case["unused"][0]
+        for tag, ans in answers:
+            V.count()
+            got = {(UNI.slot_of_path.get(x["file"]), x["name"]) for x in ans} if isinstance(ans, list) else None
+            py = {(x["file"], x["name"]) for x in row["py"]}
+            impl = {(x["file"], x["name"]) for x in row["impl"]}
+            if n_named(case, "n") >= 2:
+                V.nontriv((shape_key(case), tuple(case["order"])))
+            if got == py:
+                continue
+            blame = set()
+            for r2 in case["goto"]:
+                blame |= set(r2["blame"])
+            ex = {"shape": case["shape"], "order": case["order"], "got": sorted(map(str, got or [])),
+                  "expected": sorted(map(str, py)), "model_predicts": sorted(map(str, impl)),
+                  "blame": sorted(blame), "files": ctx.texts()}
+            if got == impl:
+                V.classify(sorted(blame), ex, "`fixtures unused` differs from 'project, not autouse, no usage resolves to it'")
+            else:
+                V.drift += 1
+                V.violation(ex, "`fixtures unused` differs from the reference and from the implementation model")
+        if n % 20000 == 0:
+            V.sample({"shape": case["shape"], "order": case["order"], "unused_expected": row["py"]})
+
+    replayed = drive(meta, build, judge, only=replay_filter())
+    return meta, replayed
